@@ -68,7 +68,9 @@ func c04PartN(t *testing.T, res *vout.Result, item *int) {
 		}
 	}
 	res.Bound("namespace_tree_shapes", len(shapes))
-	kinds := []string{"revoke", "revoke-self", "revoke-orphan", "revoke-accessor", "revoke+crash"}
+	// "@root": the revocation request is made in the ROOT namespace by its administrator,
+	// naming a token (or accessor) that lives in a namespace below
+	kinds := []string{"revoke", "revoke-self", "revoke-orphan", "revoke-accessor", "revoke+crash", "revoke@root", "revoke-orphan@root", "revoke-accessor@root"}
 	for _, sh := range shapes {
 		for _, kind := range kinds {
 			for target := 0; target < 2; target++ {
@@ -124,15 +126,20 @@ func c04PartN(t *testing.T, res *vout.Result, item *int) {
 				var resp *logical.Response
 				var err error
 				base := strings.TrimSuffix(kind, "+crash")
+				callNS := tg.ns
+				if strings.HasSuffix(base, "@root") {
+					base = strings.TrimSuffix(base, "@root")
+					callNS = nss[""]
+				}
 				switch base {
 				case "revoke":
-					resp, err = s.ReqNS(tg.ns, s.Root, logical.UpdateOperation, "auth/token/revoke", map[string]interface{}{"token": tg.id})
+					resp, err = s.ReqNS(callNS, s.Root, logical.UpdateOperation, "auth/token/revoke", map[string]interface{}{"token": tg.id})
 				case "revoke-self":
 					resp, err = s.ReqNS(tg.ns, tg.id, logical.UpdateOperation, "auth/token/revoke-self", nil)
 				case "revoke-orphan":
-					resp, err = s.ReqNS(tg.ns, s.Root, logical.UpdateOperation, "auth/token/revoke-orphan", map[string]interface{}{"token": tg.id})
+					resp, err = s.ReqNS(callNS, s.Root, logical.UpdateOperation, "auth/token/revoke-orphan", map[string]interface{}{"token": tg.id})
 				case "revoke-accessor":
-					resp, err = s.ReqNS(tg.ns, s.Root, logical.UpdateOperation, "auth/token/revoke-accessor", map[string]interface{}{"accessor": tg.accessor})
+					resp, err = s.ReqNS(callNS, s.Root, logical.UpdateOperation, "auth/token/revoke-accessor", map[string]interface{}{"accessor": tg.accessor})
 				}
 				art := map[string]interface{}{"shape": []string{nsPaths[sh[0]], nsPaths[sh[1]], nsPaths[sh[2]]}, "kind": kind, "target": target}
 				res.Add("executions", 1)
